@@ -246,7 +246,7 @@ func decodedListField(fa *ssa.FieldAddr) (string, bool) {
 	if named == nil || named.Obj().Pkg() == nil || !strings.HasPrefix(named.Obj().Pkg().Path(), helmMod) {
 		return "", false
 	}
-	return named.Obj().Name() + "." + f.Name(), true
+	return refTypeName(named.Obj()) + "." + f.Name(), true
 }
 
 // c20IndexGuard: x.List[k] with a constant k on a decoded list needs len(x.List) > k on every path.
